@@ -206,8 +206,18 @@ func renderSlots(toks []gen.Tok, slots []c07slot, inline bool, emptyTok int) str
 }
 
 func parseWithParams(text string, params map[string]interface{}) (st influxql.Statement, err error, pan bool, pv interface{}, stk string) {
+	return parseWithParams2(text, nil, params)
+}
+
+// parseWithParams2 binds prior first (when non-nil) and then params on the
+// same parser: the second call replaces the bindings, so the outcome must be
+// that of a parser that only ever saw params.
+func parseWithParams2(text string, prior, params map[string]interface{}) (st influxql.Statement, err error, pan bool, pv interface{}, stk string) {
 	pan, pv, stk = mon.Try(func() {
 		p := influxql.NewParser(strings.NewReader(text))
+		if prior != nil {
+			p.SetParams(prior)
+		}
 		p.SetParams(params)
 		var q *influxql.Query
 		q, err = p.ParseQuery()
@@ -269,7 +279,16 @@ func c07One(c *Ctx, idx int, local map[string]int64) {
 		local["base-not-accepted(skipped)"]++
 		return
 	}
-	st, err, pan, pv, stk := parseWithParams(tmpl, params)
+	var decoy map[string]interface{}
+	if idx%3 == 0 {
+		// an earlier binding of the same and of other names, replaced before parsing
+		decoy = map[string]interface{}{"zz": "decoy", "": "decoy"}
+		for k := range params {
+			decoy[k] = "decoy'; --"
+		}
+		local["rebinding.positive"]++
+	}
+	st, err, pan, pv, stk := parseWithParams2(tmpl, decoy, params)
 	r.Eval(1)
 	r.DistinctStr(tmpl + fmt.Sprintf("%#v", params))
 	local["templates"]++
@@ -358,14 +377,21 @@ func c07One(c *Ctx, idx int, local map[string]int64) {
 			bad[""] = victim.value
 		}
 	}
-	st2, err2, pan2, pv2, stk2 := parseWithParams(tmpl2, bad)
+	// half of the time on a parser that was first given the complete, valid
+	// bindings: re-binding replaces them, nothing of the earlier set survives
+	var prior map[string]interface{}
+	if rg.Bool() {
+		prior = params
+		local["must-error.after-rebinding"]++
+	}
+	st2, err2, pan2, pv2, stk2 := parseWithParams2(tmpl2, prior, bad)
 	r.Eval(1)
 	if pan2 {
 		r.Violation("panic", map[string]interface{}{"idx": idx, "input": tmpl2, "params": fmt.Sprintf("%#v", bad), "why": fmt.Sprint(pv2), "stack": stk2})
 		return
 	}
 	if err2 == nil {
-		r.Violation("unbound-or-unbindable-accepted", map[string]interface{}{"idx": idx, "input": tmpl2, "params": fmt.Sprintf("%#v", bad), "why": fmt.Sprintf("variant %d (0 unbound, 1 unbindable value, 2 empty $) was accepted as %s", variant, trunc(st2.String(), 200))})
+		r.Violation("unbound-or-unbindable-accepted", map[string]interface{}{"idx": idx, "input": tmpl2, "params": fmt.Sprintf("%#v", bad), "rebinding": prior != nil, "why": fmt.Sprintf("variant %d (0 unbound, 1 unbindable value, 2 empty $; SetParams called twice: %v) was accepted as %s", variant, prior != nil, trunc(st2.String(), 200))})
 		return
 	}
 	local[fmt.Sprintf("must-error.%d", variant)]++
@@ -373,7 +399,7 @@ func c07One(c *Ctx, idx int, local map[string]int64) {
 
 func checkC07(c *Ctx) (string, bool, []string) {
 	r := c.R
-	rule := "templates = generated statements of all 44 kinds whose name / string / regex / integer / float / duration / boolean tokens (1-3 per template, any position the grammar has) are replaced by $name or $\"quoted name\"; parameter maps bind the original value (all Go / JSON kinds: plain, typed object, json.Number, int64 duration) or a hostile value of the same kind (quotes, semicolons, comment markers, keywords, NUL, CR, NaN, Inf, int64 extremes); each compared with the literal-written form, or with the template's structure when the value cannot be written; plus unbound / unbindable / empty-placeholder variants that must fail. Non-trivial = every case; distinct by (template, params)."
+	rule := "templates = generated statements of all 44 kinds whose name / string / regex / integer / float / duration / boolean tokens (1-3 per template, any position the grammar has) are replaced by $name or $\"quoted name\"; parameter maps bind the original value (all Go / JSON kinds: plain, typed object, json.Number, int64 duration) or a hostile value of the same kind (quotes, semicolons, comment markers, keywords, NUL, CR, NaN, Inf, int64 extremes); each compared with the literal-written form, or with the template's structure when the value cannot be written; plus unbound / unbindable / empty-placeholder variants that must fail, half of them on a parser whose bindings were first set to the valid map and then replaced (SetParams twice). Non-trivial = every case; distinct by (template, params)."
 	assume := []string{"the literal form is rendered by the harness's own quoting, not by QuoteIdent / QuoteString", "a value of a kind that does not match the slot kind is not judged except for the must-error variants"}
 	if c.Replay != nil {
 		c07One(c, replayInt(c, "idx"), map[string]int64{})
